@@ -3,16 +3,25 @@
 //   - the sequence of phases in (*Interpreter).Execute (interp/program.go), CompileAST and
 //     importSrc (interp/src.go), as tokens in source order (see tokens below);
 //   - fingerprints of the functions that Model/VarInit.lean transcribes by hand
-//     (getVars, genGlobalVars, genGlobalVarDecl, getVarDependencies, equalNodes).
+//     (getVars, genGlobalVars, genGlobalVarDecl, getVarDependencies, equalNodes);
+//   - which function declarations are init functions (initFacts): the conjuncts of the condition
+//     under which cfg (interp/cfg.go, pre-order processing of a funcDecl node) adds the node to
+//     initNodes, how it adds it, how importSrc joins the lists of the files of a directory, and the
+//     cases of the switch of gta (interp/gta.go) that decides which function declarations get a
+//     symbol in the package scope; fingerprints of those statements and of the loops that run the list.
 //
 // A construct that is no longer recognised yields a token "unrecognised: …", which cannot equal
 // the hand-written expectation.
 package main
 
 import (
+	"bytes"
+	"crypto/sha256"
 	"fmt"
 	"go/ast"
+	"go/printer"
 	"go/token"
+	"strconv"
 	"strings"
 
 	"verif/extract/common"
@@ -167,6 +176,316 @@ func tokens(fd *ast.FuncDecl) []string {
 	return out
 }
 
+
+// render prints a node without comments and without any white space.
+func render(n ast.Node) string {
+	var b bytes.Buffer
+	if err := (&printer.Config{Mode: printer.RawFormat}).Fprint(&b, token.NewFileSet(), n); err != nil {
+		return "?" + err.Error()
+	}
+	return strings.Join(strings.Fields(b.String()), "")
+}
+
+// nodeHash is common.FuncHash for an arbitrary statement.
+func nodeHash(n ast.Node) string {
+	if n == nil {
+		return "unrecognised: statement not found"
+	}
+	var b bytes.Buffer
+	if err := (&printer.Config{Mode: printer.RawFormat}).Fprint(&b, token.NewFileSet(), n); err != nil {
+		return "unrecognised: " + err.Error()
+	}
+	norm := strings.Join(strings.Fields(b.String()), " ")
+	return fmt.Sprintf("%x", sha256.Sum256([]byte(norm)))[:16]
+}
+
+func other(s string) string { return ".other " + common.LeanStr(s) }
+
+// conjuncts flattens a && b && (c && d).
+func conjuncts(e ast.Expr) []ast.Expr {
+	switch x := e.(type) {
+	case *ast.ParenExpr:
+		return conjuncts(x.X)
+	case *ast.BinaryExpr:
+		if x.Op == token.LAND {
+			return append(conjuncts(x.X), conjuncts(x.Y)...)
+		}
+	}
+	return []ast.Expr{e}
+}
+
+// regCond names one conjunct of the registration condition (Lean constructor of VarInit.RegCond).
+//
+//	n.child[1].ident == "s"                  .nameIs "s"
+//	strings.HasPrefix(n.child[1].ident, "s") .namePrefix "s"
+//	strings.EqualFold(n.child[1].ident, "s") .nameFold "s"
+//	len(n.child[0].child) == 0               .recvEmpty      (child[0] of a funcDecl: the receiver field list)
+//	len(n.child[2].child[k].child) == 0      .tparamsEmpty / .paramsEmpty / .resultsEmpty  (child[2]: the funcType; k = 0, 1, 2)
+func regCond(e ast.Expr) string {
+	t := render(e)
+	const pre = `n.child[1].ident==`
+	if strings.HasPrefix(t, pre) {
+		if b, ok := e.(*ast.BinaryExpr); ok && b.Op == token.EQL {
+			if l, ok := b.Y.(*ast.BasicLit); ok && l.Kind == token.STRING {
+				if v, err := strconv.Unquote(l.Value); err == nil {
+					return ".nameIs " + common.LeanStr(v)
+				}
+			}
+		}
+	}
+	for _, fn := range [][2]string{{"strings.HasPrefix", ".namePrefix "}, {"strings.EqualFold", ".nameFold "}} {
+		if c, ok := e.(*ast.CallExpr); ok && render(c.Fun) == fn[0] && len(c.Args) == 2 && render(c.Args[0]) == "n.child[1].ident" {
+			if l, ok := c.Args[1].(*ast.BasicLit); ok && l.Kind == token.STRING {
+				if v, err := strconv.Unquote(l.Value); err == nil {
+					return fn[1] + common.LeanStr(v)
+				}
+			}
+		}
+	}
+	switch t {
+	case "len(n.child[0].child)==0":
+		return ".recvEmpty"
+	case "len(n.child[2].child[0].child)==0":
+		return ".tparamsEmpty"
+	case "len(n.child[2].child[1].child)==0":
+		return ".paramsEmpty"
+	case "len(n.child[2].child[2].child)==0":
+		return ".resultsEmpty"
+	}
+	return other(t)
+}
+
+func leanList(xs []string) string { return "[" + strings.Join(xs, ", ") + "]" }
+
+// isIdent reports whether e is the identifier name.
+func isIdent(e ast.Expr, name string) bool {
+	id, ok := e.(*ast.Ident)
+	return ok && id.Name == name
+}
+
+// cfgInitFacts finds, in the function cfg, every assignment to initNodes and reads the one it
+// expects: `if COND { initNodes = append(initNodes, n) }` directly in the `case funcDecl:` clause
+// of the pre-order function (the first function literal passed to root.Walk).
+func cfgInitFacts(fd *ast.FuncDecl) (register, add string, site ast.Node) {
+	if fd == nil || fd.Body == nil {
+		return leanList([]string{other("function cfg not found")}), other("function cfg not found"), nil
+	}
+	type found struct {
+		asg   *ast.AssignStmt
+		stack []ast.Node
+	}
+	var all []found
+	var stack []ast.Node
+	ast.Inspect(fd.Body, func(n ast.Node) bool {
+		if n == nil {
+			stack = stack[:len(stack)-1]
+			return true
+		}
+		stack = append(stack, n)
+		if a, ok := n.(*ast.AssignStmt); ok && len(a.Lhs) == 1 && isIdent(a.Lhs[0], "initNodes") {
+			all = append(all, found{a, append([]ast.Node{}, stack...)})
+		}
+		return true
+	})
+	if len(all) != 1 {
+		m := fmt.Sprintf("%d assignments to initNodes in cfg", len(all))
+		return leanList([]string{other(m)}), other(m), nil
+	}
+	f := all[0]
+	// how the node is added
+	switch r := render(f.asg); r {
+	case "initNodes=append(initNodes,n)":
+		add = ".append"
+	case "initNodes=append([]*node{n},initNodes...)":
+		add = ".prepend"
+	default:
+		add = other(r)
+	}
+	// enclosing statements, innermost first: block, if, case clause funcDecl, …, pre-order literal
+	st := f.stack[:len(f.stack)-1]
+	var ifs *ast.IfStmt
+	var clause *ast.CaseClause
+	var lit *ast.FuncLit
+	var walk *ast.CallExpr
+	nIf := 0
+	for i := len(st) - 1; i >= 0; i-- {
+		switch x := st[i].(type) {
+		case *ast.IfStmt:
+			if clause == nil {
+				nIf++
+				if ifs == nil {
+					ifs = x
+				}
+			}
+		case *ast.CaseClause:
+			if clause == nil {
+				clause = x
+			}
+		case *ast.FuncLit:
+			if lit == nil {
+				lit = x
+			}
+		case *ast.CallExpr:
+			if lit != nil && walk == nil {
+				walk = x
+			}
+		case *ast.ForStmt, *ast.RangeStmt:
+			if lit == nil {
+				return leanList([]string{other("initNodes extended inside a loop")}), add, nil
+			}
+		}
+	}
+	var conds []string
+	switch {
+	case ifs == nil || nIf != 1 || ifs.Init != nil || ifs.Else != nil || len(ifs.Body.List) != 1:
+		conds = append(conds, other("not a plain `if COND { initNodes = … }` in the case clause"))
+	default:
+		for _, c := range conjuncts(ifs.Cond) {
+			conds = append(conds, regCond(c))
+		}
+	}
+	if clause == nil || len(clause.List) != 1 || !isIdent(clause.List[0], "funcDecl") {
+		conds = append(conds, other("not in `case funcDecl:`"))
+	}
+	if lit == nil || walk == nil || render(walk.Fun) != "root.Walk" || len(walk.Args) != 2 || walk.Args[0] != ast.Expr(lit) {
+		conds = append(conds, other("not in the pre-order function of root.Walk"))
+	}
+	return leanList(conds), add, ifs
+}
+
+// importJoin reads `initNodes = append(initNodes, nodes...)` in the loop over rootNodes of importSrc.
+func importJoin(fd *ast.FuncDecl) (join string, loop ast.Node, runLoop ast.Node) {
+	if fd == nil || fd.Body == nil {
+		return other("function importSrc not found"), nil, nil
+	}
+	join = other("per-file lists are not joined")
+	n := 0
+	ast.Inspect(fd.Body, func(m ast.Node) bool {
+		rs, ok := m.(*ast.RangeStmt)
+		if !ok {
+			return true
+		}
+		switch render(rs.X) {
+		case "rootNodes":
+			ast.Inspect(rs.Body, func(k ast.Node) bool {
+				a, ok := k.(*ast.AssignStmt)
+				if !ok || len(a.Lhs) != 1 || !isIdent(a.Lhs[0], "initNodes") {
+					return true
+				}
+				n++
+				loop = rs
+				switch r := render(a); r {
+				case "initNodes=append(initNodes,nodes...)":
+					join = ".append"
+				case "initNodes=append(nodes,initNodes...)":
+					join = ".prepend"
+				default:
+					join = other(r)
+				}
+				return true
+			})
+		case "initNodes":
+			runLoop = rs
+		}
+		return true
+	})
+	if n > 1 {
+		join = other("several joins of initNodes in importSrc")
+	}
+	return join, loop, runLoop
+}
+
+// rangeLoop finds `for … := range <x>` in a function.
+func rangeLoop(fd *ast.FuncDecl, x string) ast.Node {
+	var out ast.Node
+	if fd == nil || fd.Body == nil {
+		return nil
+	}
+	ast.Inspect(fd.Body, func(m ast.Node) bool {
+		if rs, ok := m.(*ast.RangeStmt); ok && render(rs.X) == x && out == nil {
+			out = rs
+		}
+		return true
+	})
+	return out
+}
+
+// gtaCases reads, in the `case funcDecl:` clause of gta, the tag-less switch that starts with
+// `case isMethod(n):`:
+//
+//	case isMethod(n):            .method
+//	case ident == "s": (empty)   .nameIs "s"     (ident := n.child[1].ident)
+//	default: sc.sym[ident] = &symbol{kind: funcSym, …}   .default
+//
+// The fingerprint covers the case expressions and the bodies of all cases but the method case.
+func gtaCases(fd *ast.FuncDecl) (cases string, hash string) {
+	bad := func(m string) (string, string) { return leanList([]string{other(m)}), "unrecognised: " + m }
+	if fd == nil || fd.Body == nil {
+		return bad("function gta not found")
+	}
+	var clause *ast.CaseClause
+	ast.Inspect(fd.Body, func(m ast.Node) bool {
+		if c, ok := m.(*ast.CaseClause); ok && clause == nil && len(c.List) == 1 && isIdent(c.List[0], "funcDecl") {
+			clause = c
+			return false
+		}
+		return true
+	})
+	if clause == nil {
+		return bad("no `case funcDecl:` in gta")
+	}
+	identOK := false
+	var sw *ast.SwitchStmt
+	for _, s := range clause.Body {
+		if a, ok := s.(*ast.AssignStmt); ok && render(a) == "ident:=n.child[1].ident" {
+			identOK = true
+		}
+		if x, ok := s.(*ast.SwitchStmt); ok && x.Tag == nil && x.Init == nil && sw == nil {
+			sw = x
+		}
+	}
+	if sw == nil {
+		return bad("no switch in `case funcDecl:` of gta")
+	}
+	var out []string
+	var forHash strings.Builder
+	for _, s := range sw.Body.List {
+		c := s.(*ast.CaseClause)
+		var label string
+		switch {
+		case c.List == nil:
+			label = other("default case does not declare the function symbol")
+			for _, b := range c.Body {
+				if a, ok := b.(*ast.AssignStmt); ok && strings.HasPrefix(render(a), "sc.sym[ident]=&symbol{kind:funcSym,") {
+					label = ".default"
+				}
+			}
+		case len(c.List) == 1 && render(c.List[0]) == "isMethod(n)":
+			label = ".method"
+		case len(c.List) == 1 && strings.HasPrefix(render(c.List[0]), "ident=="):
+			label = other(render(c.List[0]))
+			if b, ok := c.List[0].(*ast.BinaryExpr); ok && identOK && len(c.Body) == 0 {
+				if l, ok := b.Y.(*ast.BasicLit); ok && l.Kind == token.STRING {
+					if v, err := strconv.Unquote(l.Value); err == nil {
+						label = ".nameIs " + common.LeanStr(v)
+					}
+				}
+			}
+		default:
+			label = other("case " + render(&ast.CaseClause{List: c.List}))
+		}
+		out = append(out, label)
+		forHash.WriteString(label + "{")
+		if label != ".method" {
+			for _, b := range c.Body {
+				forHash.WriteString(render(b) + ";")
+			}
+		}
+		forHash.WriteString("}")
+	}
+	return leanList(out), fmt.Sprintf("%x", sha256.Sum256([]byte(forHash.String())))[:16]
+}
+
 func main() {
 	common.Main("C15", func(repo string) (string, error) {
 		_, fp, err := common.ParseFile(repo, "interp/program.go")
@@ -187,6 +506,21 @@ func main() {
 		}
 		h1 := common.HashTable(fsetC, fc, [][2]string{{"", "getVars"}, {"", "genGlobalVars"}, {"", "genGlobalVarDecl"}, {"", "getVarDependencies"}})
 		h2 := common.HashTable(fsetG, fg, [][2]string{{"", "equalNodes"}})
+		register, add, regIf := cfgInitFacts(common.FindFunc(fc, "Interpreter", "cfg"))
+		join, joinLoop, runLoop := importJoin(common.FindFunc(fs, "Interpreter", "importSrc"))
+		gcases, ghash := gtaCases(common.FindFunc(fg, "Interpreter", "gta"))
+		ih := [][2]string{
+			{"cfg: if … { initNodes = append(initNodes, n) }", nodeHash(regIf)},
+			{"importSrc: loop over rootNodes (cfg, join)", nodeHash(joinLoop)},
+			{"importSrc: loop over initNodes", nodeHash(runLoop)},
+			{"Execute: loop over p.init", nodeHash(rangeLoop(common.FindFunc(fp, "Interpreter", "Execute"), "p.init"))},
+			{"gta: switch of case funcDecl (cases; bodies except the method case)", ghash},
+			{"isMethod", common.FuncHash(fsetC, fc, "", "isMethod")},
+		}
+		var ihs []string
+		for _, kv := range ih {
+			ihs = append(ihs, fmt.Sprintf("(%s, %s)", common.LeanStr(kv[0]), common.LeanStr(kv[1])))
+		}
 		return fmt.Sprintf(`import YaegiVerif.Model.VarInit
 namespace YaegiVerif.Generated.C15
 open YaegiVerif.VarInit
@@ -199,10 +533,21 @@ def execFacts : ExecFacts :=
 def sourceHashes : List (String × String) :=
   %s ++
   %s
+/-- interp/cfg.go cfg (pre-order, case funcDecl): the condition under which a function declaration
+    is added to initNodes and how; interp/src.go importSrc: how the lists of the files are joined;
+    interp/gta.go gta (case funcDecl): which declarations get a function symbol -/
+def initFacts : InitFacts :=
+  { register := %s,
+    add := %s,
+    join := %s,
+    gta := %s }
+/-- fingerprints of the statements initFacts was read from and of the loops that run the list -/
+def initHashes : List (String × String) :=
+  [%s]
 end YaegiVerif.Generated.C15
 `, common.LeanStrList(tokens(common.FindFunc(fp, "Interpreter", "Execute"))),
 			common.LeanStrList(tokens(common.FindFunc(fp, "Interpreter", "CompileAST"))),
 			common.LeanStrList(tokens(common.FindFunc(fs, "Interpreter", "importSrc"))),
-			h1, h2), nil
+			h1, h2, register, add, join, gcases, strings.Join(ihs, ",\n   ")), nil
 	})
 }
